@@ -35,12 +35,12 @@ RULE = ("case = (part, size, spectrum, dtype, domain kind, rhs, start, precondit
 ASSUMPTIONS = [
     "a controller without any criterion (no tolerance and no iteration limit) is outside the premise and not enumerated",
     "matrix entries / rhs / start values are alphabet values (fixed unitary mixing selected by VERIF_SEED); structure is exhaustive",
-    "true residual accepted within 1e3*eps*kappa*(|b|+|A||x|) of the controller's threshold (controller sees the recurred residual)",
+    "true residual accepted within 1e4*eps*(|b|+|A| max|x_k|) of the controller's threshold (the controller sees the recurred residual)",
     "Krylov-optimality of iterates (energy within 1e-5*(E0-E*) of the subspace minimum) only asserted when the preconditioned system has kappa<=1e3, for the first min(n,8) iterations",
     "operators are harness-side dense leaves; GPU / MPI paths not exercised",
 ]
 
-C = 1e3
+C = 1e4
 KRYLOV_TOL = 1e-5
 EPS = np.finfo(np.float64).eps
 
@@ -199,10 +199,13 @@ def verify(log, fin, status, A, M, b, x0, lam, kind, limit, nreset, napply0, tag
     nb = np.linalg.norm(b)
     xs = [e["x"] for e in log] + [fin["x"]]
     xstar = np.linalg.solve(A, b)
-    # CG iterates never leave the A-norm ball around x* through x0
-    sx = np.linalg.norm(xstar) + np.sqrt(kappa) * np.linalg.norm(x0 - xstar) + 1e-300
-    slack_g = C * EPS * kappa * (nb + nA * sx) + 1e-300
-    slack_E = C * EPS * kappa * (nb * sx + nA * sx * sx) + 1e-300
+    # round-off model: recurred and true residual differ by O(eps * iterations * |A| * max|x_k|) (no kappa factor);
+    # |x_k| is bounded by the A-norm ball through x0, capped so that a diverging run cannot widen its own tolerance
+    sx_cap = np.linalg.norm(xstar) + np.sqrt(kappa) * np.linalg.norm(x0 - xstar)
+    sx = max(np.linalg.norm(x0), np.linalg.norm(xstar), min(sx_cap, max(np.linalg.norm(x) if np.all(np.isfinite(x)) else np.inf
+                                                                     for x in xs))) + 1e-300
+    slack_g = C * EPS * (nb + nA * sx) + 1e-300
+    slack_E = C * EPS * (nb * sx + nA * sx * sx) + 1e-300
     stats = dict(cg_iterations=max(len(log) - 1, 0))
 
     def V(what, key):
@@ -498,7 +501,7 @@ def run_inv(c):
             if cap & mode:
                 if rec.runs:
                     return bad("InversionEnabler ran CG for a mode the operator supports", finding_key="InversionEnabler|cg-for-native-mode")
-                if not dense.close(yv, target @ x, C * EPS * kap):
+                if not dense.close(yv, target @ x, 1e3 * EPS * kap):
                     return bad("InversionEnabler native mode %d deviates" % mode, finding_key="InversionEnabler|native-mode-wrong")
                 continue
             if len(rec.runs) != 1:
@@ -525,7 +528,7 @@ def run_inv(c):
             if c["ctrl"] in ("gn_abs", "gn_rel", "gn_abs_l2") and c["limit"] is None:
                 tol = CTRL[c["ctrl"]][1].get("tol_abs_gradnorm", CTRL[c["ctrl"]][1].get("tol_rel_gradnorm"))
                 rn = np.linalg.norm(B @ yv - x)
-                if rn > tol + C * EPS * kap * (1 + lamB.max() * np.linalg.norm(yv)):
+                if rn > tol + C * EPS * (1 + lamB.max() * np.linalg.norm(yv)):
                     return bad("InversionEnabler mode %d: |B y - x| = %.3e > tol %.1e" % (mode, rn, tol),
                                finding_key="InversionEnabler|residual-above-tolerance")
     stats = dict(cg_iterations=iters, inv_solves=nsolve)
